@@ -8,21 +8,21 @@ CHECKS = {
    note="Timings are sampled; the accept/count window is forced. The only wall-clock comparison is one-sided (cancellation not earlier than the grace period).", ref="§2 C16"),
 
  "C08": dict(cat="exploration", tech="offline history checker over per-connection event logs with unique ids (exactly once, in order), worker process as crash monitor, canary connection, goroutine census, verif-hook directed schedules, race detector",
-   text="200/6000 histories of 1-16 (thorough: up to 256) concurrent scripted raw clients against a real kmipserver.Server on an in-memory listener with handlers that return ok / typed error / plain error / panic with six kinds of values / block until released / return 200 KiB; clients send whole, in pieces, pipelined, framed-undecodable (4 kinds), garbage, truncated, close while a handler runs, stop reading and close while a big response is written, half-close. Per connection the received id sequence must be a prefix of the sent one and complete when the client drained (verdict only when the server is quiescent); a canary connection is pinged throughout; census at quiescence; Shutdown must return; two directed schedules park the connection goroutine / write loop at the verif hooks while the client disconnects. A worker death with a library frame is a violation.",
+   text="200/6000 histories of 1-16 (thorough: up to 256) concurrent scripted raw clients against a real kmipserver.Server on an in-memory listener with handlers that return ok / typed error / plain error / panic with six kinds of values / block until released / return 200 KiB; clients send whole, in pieces, pipelined, framed-undecodable (4 kinds), garbage, truncated, close while a handler runs, stop reading and close while a big response is written, half-close. Per connection the received id sequence must be a prefix of the sent one and complete when the client drained (verdict only when the server is quiescent); a canary connection is pinged throughout; census at quiescence; Shutdown must return; the binary hostile corpus of C02 is fed to the server one input per connection (a correctly framed one must get exactly one answer); two directed schedules park the connection goroutine / write loop at the verif hooks while the client disconnects. A worker death with a library frame is a violation.",
    note="Schedules are sampled apart from the two forced windows. A connection the client half-closed may end short (not judged as unanswered).", ref="§2 C08"),
  "C15": dict(cat="exploration", tech="per-request sequential register model over handler observations with request-tagged values; concurrent requests and connection sequences; race detector on the accessors",
-   text="Programs of 1-8 items over {set, read, fail, noop} where every stored value carries (request id, item index): 24/2500 rounds of 2-64 goroutines calling HandleRequest at once with yielding handlers (overlap counter proves requests were inside handlers simultaneously) and 24/1500 rounds of 1-16 real connections each sending 6 requests; every read is checked against the model starting empty and any value tagged with another request is a leak, named exactly; race reports on the placeholder accessors are violations.",
+   text="Programs of 1-8 items over {set, read, fail, noop} where every stored value carries (request id, item index): 24/2500 rounds of 2-64 goroutines calling HandleRequest at once with yielding handlers (overlap counter proves requests were inside handlers simultaneously; in half of the rounds a retry middleware runs the chain twice for a quarter of the requests) and 24/1500 rounds of 1-16 real connections each sending 6 requests; every read is checked against the model starting empty and any value tagged with another request is a leak, named exactly; race reports on the placeholder accessors are violations.",
    note="After a failed item both the previous and the empty value are accepted.", ref="§2 C15"),
 
  "C10": dict(cat="exploration", tech="unique-id echo monitor at the client boundary under hook-placed cancellations and 2..32 concurrent callers, with the race detector",
    text="Every call carries a unique id that the scripted server echoes, so each returned response names the request it answers. 200/6000 directed sequences put a cancellation before send, at the verif hook after the tx channel is loaded, at the hook between send and recv (response held back and released late), while the server holds the response, or by a 2 ms deadline, each followed by further calls on the same client; 40/3000 stress rounds run 2..32 goroutines x 6 calls on one client. A call may return an error or its own response only. Hook visit counters prove each window was hit.",
    note="Interleavings are sampled; the send/recv gap is forced through the hook.", ref="§2 C10"),
  "C11": dict(cat="fault_enumeration", tech="I/O-operation-indexed fault injection on an in-memory transport x fault kinds; transmission counters, recovery rule, goroutine census, directed hook schedules, race detector",
-   text="The scenario {Dial with negotiation, three calls, Close, call after Close, Close again} is rerun for every operation index 0..25 of the first connection (the scenario performs ~10) x 8 fault kinds (read EOF / closed / reset, write EPIPE / reset, short write, server closes after replying to / after reading request k); plus dialer failures during reconnect, 4/8/16 concurrent callers under a fault, and three directed schedules built with the verif hooks. Monitors: panic/crash, own-id response or error, never two consecutive failing calls while the server is reachable, <= 4 transmissions per request, calls fail after Close, no library goroutine left 10 s after closing.",
+   text="The scenario {Dial with negotiation, three calls, Close, call after Close, Close again} is rerun for every operation index 0..25 of the first connection (the scenario performs ~10) x 8 fault kinds (read EOF / closed / reset, write EPIPE / reset, short write, server closes after replying to / after reading request k); plus a server that drops the connection after reading the request 1..8 times in a row (transmission budget), dialer failures during reconnect, 4/8/16 concurrent callers under a fault, and three directed schedules built with the verif hooks. Monitors: panic/crash, own-id response or error, never two consecutive failing calls while the server is reachable, <= 4 transmissions per request, calls fail after Close, no library goroutine left 10 s after closing.",
    note="In-memory transport (TCP/TLS flavour not built); recovery rule as stated in the evidence assumptions.", ref="§2 C11"),
 
  "C12": dict(cat="exploration", tech="scripted-server response enumeration with panic monitor and (value, error) inspection for every client entry point",
-   text="For 26 fluent builders, Client.Request, Client.Batch, the discovery exchange of Dial and Client.Signer, a scripted server answers with every combination of header batch count {0,1,2}, item count {0,1,2}, item operation {requested, other, unknown, absent}, status {Success, Failed, Pending, Undone, unknown}, reason {none, registered, unknown} and payload {absent, right, another operation's, opaque} (1443 shapes each, ~45k exchanges) plus 3k/200k random shapes with extensions; a call must return the requested operation's payload type or an error, never panic, and a failed item's error must carry the server's status, reason and message. The shape product is enumerated completely.",
+   text="For 26 fluent builders, Client.Request, Client.Batch, the discovery exchange of Dial and Client.Signer, a scripted server answers with every combination of header batch count {0,1,2}, item count {0,1,2}, item operation {requested, other, unknown, absent}, status {Success, Failed, Pending, Undone, unknown}, reason {none, registered, unknown} and payload {absent, right, another operation's, opaque} (1443 shapes each, ~45k exchanges) plus 3k/200k random shapes with extensions, plus every batch of 2-4 requests answered item by item from 6 per-item shapes (4644 batches, each item judged at its position); a call must return the requested operation's payload type or an error, never panic, and a failed item's error must carry the server's status, reason and message. The shape product is enumerated completely.",
    note="Unknown status/reason numbers have no name to look for in the error text; only err != nil is required there.", ref="§2 C12"),
 
  "C07": dict(cat="fault_enumeration", tech="chunking reader with byte accounting, requested-size and TotalAlloc monitors; truncation at every offset; real server and client connections fed byte-wise",
@@ -30,13 +30,13 @@ CHECKS = {
    note="Truncation offsets and the announced-length ladder are enumerated completely for the listed sizes; sequences and random segmentations are sampled.", ref="§2 C07"),
 
  "C09": dict(cat="exploration", tech="reference-model monitor over instrumented handlers: exhaustive small batches, random long ones, a sample over a real server connection",
-   text="Every batch of length <=3 (quick) / <=4 (thorough) over 6 per-item outcomes x 4 continuation options x version ok/not x count ok/not x ids yes/no (8288 / 49760 cases) plus 3k/200k random batches up to 40 items run through BatchExecutor.HandleRequest with handlers that record their invocations; response shape (item count, order, echoed operation and id, batch count, version, success/failure) and the handler trace are compared with an executable reference model; ~1000 batches also cross a real kmipserver connection. Exhaustive inside the stated bounds.",
+   text="Every batch of length <=3 (quick) / <=4 (thorough) over 8 per-item outcomes (incl. the built-in Discover Versions with and without a critical extension) x 4 continuation options x version ok/not x count ok/not x ids yes/no (18720 / 149792 cases) plus 3k/200k random batches up to 40 items run through BatchExecutor.HandleRequest with handlers that record their invocations; response shape (item count, order, echoed operation and id, batch count, version, success/failure) and the handler trace are compared with an executable reference model; ~1000 batches also cross a real kmipserver connection. Exhaustive inside the stated bounds.",
    note="Only what the property states is compared (not reason codes or messages).", ref="§2 C09"),
  "C13": dict(cat="exploration", tech="exhaustive configuration enumeration against scripted and library servers, compared with a reference function; request headers recorded at the server",
    text="All 31 x 32 client/server version subsets x 5 server behaviours x enforced/not (9920 Dials) against a scripted server that records every request header, each followed by two requests and a cloned client, plus 31 x 31 against the library's own executor restricted by SetSupportedProtocolVersions; adopted version, failure cases, membership in the configured set and the version carried by every later request are compared with a 10-line reference function. Exhaustive over the stated configuration space.",
    note="Where the library's own server rejects the 1.1 discovery message itself only 'if Dial succeeds the version is right' is required.", ref="§2 C13"),
  "C19": dict(cat="exploration", tech="trace monitor: instrumented middleware stages vs a reference interpreter, all programs up to a length bound for three chains, also under 16 concurrent requests with the race detector",
-   text="All 820 (quick) / 7381 (thorough) programs over 9 stage kinds for the client chain, the server message chain and the server batch-item chain; each request's enter/core/exit trace (message id and context marker seen by every stage and by the transport/handler) must equal the reference interpreter's, event for event, alone and when 16 goroutines share the chain. Exhaustive inside the length bound.",
+   text="All 1111 (quick) / 11111 (thorough) programs over 10 stage kinds (incl. a stage calling its continuation twice concurrently, judged on the multiset of events) for the client chain, the server message chain and the server batch-item chain; each request's enter/core/exit trace (message id and context marker seen by every stage and by the transport/handler) must equal the reference interpreter's, event for event, alone and when 16 goroutines share the chain. Exhaustive inside the length bound.",
    note="The client chain's core (scripted server) cannot observe the context marker.", ref="§2 C19"),
 
  "C20": dict(cat="exploration", tech="cross-process differential monitor (fresh sequential process vs cold concurrent processes vs reused-encoder histories) plus the Go race detector",
@@ -56,20 +56,20 @@ CHECKS = {
    note="Only the fixed point is required, not value preservation of non-canonical forms. TZ=UTC.", ref="§2 C18"),
 
  "C02": dict(cat="exploration", tech="panic/crash, canary-mutation, determinism, extent non-interference and hang monitors around the three decoders, Stream.Recv and the HTTP handler under seeded hostile inputs in crash-isolated worker processes",
-   text="~1M (quick) / ~20M (thorough) decodes: every item of seeded valid encodings gets the full length/type disagreement ladder, plus truncation at every offset, splices, flips, random bytes, 131072-level nesting, structural JSON/XML mutants, mutated OASIS vectors, and child-beyond-parent pairs decoded with two different fillers, against every top-level target type (generic value, messages, 54 payloads, attribute, objects). Inputs are handed over with cap==len inside canary-guarded buffers and decoded twice. Worker processes isolate fatal errors; a watchdog overrun is replayed alone before it counts. Held on what was executed; not a proof over all byte strings.",
+   text="~1M (quick) / ~20M (thorough) decodes: every item of seeded valid encodings gets the full length/type disagreement ladder, plus truncation at every offset, splices, flips, random bytes, 131072-level nesting, structural JSON/XML mutants, mutated OASIS vectors, and child-beyond-parent pairs decoded with two different fillers, against every top-level target type (generic value, messages, 54 payloads, attribute, objects). Inputs are handed over with cap==len inside canary-guarded buffers and decoded twice; every binary input the generic target accepts is re-walked by an independent, lenient extent checker (no item outside the declared extent of its structure). Worker processes isolate fatal errors; a watchdog overrun is replayed alone before it counts. Held on what was executed; not a proof over all byte strings.",
    note="Answers of the decoders are not judged here. Input length bounded by 64 KiB except the nesting ladders (1 MiB).", ref="§2 C02"),
  "C06": dict(cat="exploration", tech="differential monitor against pinned operation/object/attribute type tables; inputs built by the independent generator (binary) or from the generic tree (XML/JSON)",
-   text="27 operations x 2 directions x 3 encodings x versions with valid payloads must decode to the pinned Go payload type reporting the same operation and re-encode to the canonical bytes; the 16 named-unimplemented, boundary and seeded random 32-bit codes with arbitrary payloads must come back as opaque TTLV that re-encodes byte-identically; 9 object types in 4 carriers; unknown/mismatching object type codes must be errors; 50 attribute names x 10 TTLV types (right type -> pinned Go type, wrong type -> error); custom/arbitrary names x 10 types preserved.",
+   text="27 operations x 2 directions x 3 encodings x versions with valid payloads must decode to the pinned Go payload type reporting the same operation and re-encode to the canonical bytes; the 16 named-unimplemented, boundary and seeded random 32-bit codes with arbitrary payloads must come back as opaque TTLV that re-encodes byte-identically; 9 object types in 4 carriers; unknown/mismatching object type codes must be errors; 50 attribute names x 10 TTLV types (right type -> pinned Go type, wrong type -> error); custom/arbitrary names x 10 types preserved; payload types registered for a vendor operation at run time, after the first decode, in a fresh process.",
    note="Type tables in harness/gen/ops.go are written from KMIP 1.4; 2^32 operation codes are sampled (boundaries + random).", ref="§2 C06"),
 
  "C01": dict(cat="exploration", tech="differential monitor: library binary encoder/decoder vs an independent reference layout model and strict parser, over seeded well-formed messages with forced coverage",
    text="Each generated message (54k quick / 4M thorough; every operation x direction, object type, key format, standard attribute, credential type forced and counted) is laid out by an independently written reference model (own reflect walk, pinned tag and version tables, hand-modelled batch items/unions/opaque values); the library's bytes must parse strictly to exactly that tree, decode to a message with the same tree, and re-encode to identical bytes. Sampling of an unbounded space with required coverage counters; a run that misses a class exits 2.",
    note="The model reads field order and omitempty from the struct definitions (a wrong omitempty is seen only by C04-B). Pins are the author's reading of KMIP 1.0-1.4.", ref="§2 C01"),
  "C05": dict(cat="exploration", tech="differential monitor against a pinned version-gate table: exhaustive field x version x populated x context matrix, decode-side version rewrite, annotation diff",
-   text="All 61 pinned version-dependent fields x 5 versions x populated/unpopulated x 6 surrounding contexts are encoded and compared with the reference layout at that version (no later element, every valid populated element); the full 1.4 encoding with the header version rewritten is decoded and must return every element; live version= annotations are diffed against the pin; plus 8k/600k random messages with gated fields populated regardless of version. The matrix is enumerated completely; contexts and surrounding content are sampled.",
+   text="All 61 pinned version-dependent fields x 5 versions x populated/unpopulated x 6 surrounding contexts are encoded in binary, XML and JSON and compared with the reference layout at that version (no later element, every valid populated element; text documents read by the harness's own readers); the full 1.4 encoding with the header version rewritten is decoded and must return every element; live version= annotations are diffed against the pin; plus 8k/600k random messages with gated fields populated regardless of version. The matrix is enumerated completely; contexts and surrounding content are sampled.",
    note="Gate table pinned from the tree after review against KMIP 1.0-1.4; a field unknown to both pin and library is invisible.", ref="§2 C05"),
  "C17": dict(cat="exploration", tech="exhaustive registry walk through the public API against a pinned registry, in 3 fresh processes whose observations are compared",
-   text="Every tag in 0x420000-0x4203FF / 0x540000-0x5400FF, every value of the 47 named enumerations (plus the unnamed 48th type), and every flag of both masks is written and read back by name through XML, JSON, binary and text forms (independent XML/JSON parsers judge the written name), compared with /verif/ref/registry.json, with unregistered numbers, unknown names and cross-scope names; three fresh processes must observe the identical registry. Exhaustive inside those ranges.",
+   text="Every tag in 0x420000-0x4203FF / 0x540000-0x5400FF, every value of the 47 named enumerations (plus the unnamed 48th type), and every flag of both masks is written and read back by name through XML, JSON, binary and text forms (independent XML/JSON parsers judge the written name), compared with /verif/ref/registry.json, with unregistered numbers, unknown names and cross-scope names; three fresh processes must observe the identical registry; a fourth registers vendor extension values for three registered enumerations first and repeats the enumeration walk; every name used by the 5318 shipped OASIS vector messages must resolve through pin and library. Exhaustive inside those ranges.",
    note="The pin is the pinned tree's registry reviewed against the KMIP 1.4 tag/enumeration tables.", ref="§2 C17"),
 
  "C03": dict(cat="exploration", tech="differential monitor: library encoder/decoder vs an independent strict TTLV parser and generator over seeded trees and exhaustive ladders",
